@@ -10,7 +10,8 @@ use shared::dataset_index::GraphId;
 use std::collections::BTreeSet;
 
 #[derive(Serialize, Deserialize, Clone, Debug, PartialEq, Eq, PartialOrd, Ord)]
-pub enum LT { Iri(u32), Lit(u32), EscLit(u32), Bn(u32) }
+pub enum LT { Iri(u32), Lit(u32), EscLit(u32), Bn(u32), /// an IRI of a second namespace with the same local names (http://f/n<k>)
+    Iri2(u32) }
 #[derive(Serialize, Deserialize, Clone, Debug, PartialEq, Eq)]
 pub enum Fmt { NTriples, NQuads, Turtle, N3, RdfXml }
 #[derive(Serialize, Deserialize, Clone, Debug)]
@@ -20,8 +21,8 @@ pub struct LoadCase { pub hash_seed: u64, pub pool: usize, pub rayon_seed: u64, 
 pub struct C13;
 
 /// escaped-literal families: backslash and quote in the middle, value ending in a backslash, value ending in a quote
-fn canon(t: &LT) -> String { match t { LT::Iri(n) => format!("http://e/n{}", n), LT::Lit(n) => format!("v{}", n), LT::EscLit(n) => match n % 3 { 0 => format!("a\"b\\c{}", n), 1 => format!("dir{}\\", n), _ => format!("say{}\"", n) }, LT::Bn(n) => format!("_:b{}", n) } }
-fn nt(t: &LT) -> String { match t { LT::Iri(n) => format!("<http://e/n{}>", n), LT::Lit(n) => format!("\"v{}\"", n), LT::EscLit(n) => match n % 3 { 0 => format!("\"a\\\"b\\\\c{}\"", n), 1 => format!("\"dir{}\\\\\"", n), _ => format!("\"say{}\\\"\"", n) }, LT::Bn(n) => format!("_:b{}", n) } }
+fn canon(t: &LT) -> String { match t { LT::Iri2(n) => format!("http://f/n{}", n), LT::Iri(n) => format!("http://e/n{}", n), LT::Lit(n) => format!("v{}", n), LT::EscLit(n) => match n % 3 { 0 => format!("a\"b\\c{}", n), 1 => format!("dir{}\\", n), _ => format!("say{}\"", n) }, LT::Bn(n) => format!("_:b{}", n) } }
+fn nt(t: &LT) -> String { match t { LT::Iri2(n) => format!("<http://f/n{}>", n), LT::Iri(n) => format!("<http://e/n{}>", n), LT::Lit(n) => format!("\"v{}\"", n), LT::EscLit(n) => match n % 3 { 0 => format!("\"a\\\"b\\\\c{}\"", n), 1 => format!("\"dir{}\\\\\"", n), _ => format!("\"say{}\\\"\"", n) }, LT::Bn(n) => format!("_:b{}", n) } }
 fn pred(p: u32) -> String { format!("http://e/p{}", p) }
 
 /// N-Quads only: statement i of the document may carry a graph name (a pure function of the render seed and i)
@@ -53,12 +54,19 @@ pub fn render(doc: &Doc, fmt: &Fmt, comments: bool, nq_graphs: bool, lists: bool
             }
         }
         Fmt::Turtle => {
-            out.push_str("@prefix e: <http://e/> .\n");
-            for (s, p, o) in &doc.triples {
+            // a second prefix z: is bound to http://e/ at the top and, when the document uses the second namespace, re-bound to
+            // http://f/ half way: the same token `z:n5` then names a different IRI before and after the re-declaration
+            let rebind = doc.triples.iter().any(|(s, _, o)| matches!(s, LT::Iri2(_)) || matches!(o, LT::Iri2(_)));
+            out.push_str("@prefix e: <http://e/> .\n@prefix z: <http://e/> .\n");
+            let half = doc.triples.len() / 2;
+            for (i, (s, p, o)) in doc.triples.iter().enumerate() {
+                if rebind && i == half { out.push_str("@prefix z: <http://f/> .\n"); }
                 filler(&mut r, &mut out);
-                let st = match s { LT::Iri(n) if r.chance(1, 2) => format!("e:n{}", n), x => nt(x) };
+                let after = rebind && i >= half;
+                let mut term = |t: &LT, r: &mut Rng| -> String { match t { LT::Iri(n) if !after && r.chance(1, 3) => format!("z:n{}", n), LT::Iri(n) if r.chance(1, 2) => format!("e:n{}", n), LT::Iri2(n) if after && r.chance(2, 3) => format!("z:n{}", n), x => nt(x) } };
+                let st = term(s, &mut r);
                 let pt = if r.chance(1, 2) { format!("e:p{}", p) } else { format!("<{}>", pred(*p)) };
-                let ot = match o { LT::Iri(n) if r.chance(1, 2) => format!("e:n{}", n), x => nt(x) };
+                let ot = term(o, &mut r);
                 out.push_str(&format!("{} {} {} .\n", st, pt, ot));
             }
         }
@@ -80,7 +88,7 @@ pub fn render(doc: &Doc, fmt: &Fmt, comments: bool, nq_graphs: bool, lists: bool
                 let s0 = &doc.triples[i].0;
                 let mut j = i + 1; if lists { while j < doc.triples.len() && j < i + 4 && &doc.triples[j].0 == s0 { j += 1; } }
                 out.push_str(&format!("  <rdf:Description rdf:about=\"{}\">\n", canon(s0)));
-                for (_, p, o) in &doc.triples[i..j] { match o { LT::Iri(n) => out.push_str(&format!("    <e:p{} rdf:resource=\"http://e/n{}\"/>\n", p, n)), x => out.push_str(&format!("    <e:p{}>{}</e:p{}>\n", p, canon(x).replace('&', "&amp;").replace('<', "&lt;"), p)) } }
+                for (_, p, o) in &doc.triples[i..j] { match o { LT::Iri(n) => out.push_str(&format!("    <e:p{} rdf:resource=\"http://e/n{}\"/>\n", p, n)), LT::Iri2(n) => out.push_str(&format!("    <e:p{} rdf:resource=\"http://f/n{}\"/>\n", p, n)), x => out.push_str(&format!("    <e:p{}>{}</e:p{}>\n", p, canon(x).replace('&', "&amp;").replace('<', "&lt;"), p)) } }
                 out.push_str("  </rdf:Description>\n");
                 i = j;
             }
@@ -100,7 +108,7 @@ pub fn lexical(db: &SparqlDatabase) -> Result<(BTreeSet<Q>, BTreeSet<String>), S
 }
 fn supported(fmt: &Fmt, doc: &Doc) -> bool {
     match fmt {
-        Fmt::RdfXml => doc.triples.iter().all(|(s, _, o)| matches!(s, LT::Iri(_)) && !matches!(o, LT::Bn(_) | LT::EscLit(_))),
+        Fmt::RdfXml => doc.triples.iter().all(|(s, _, o)| matches!(s, LT::Iri(_) | LT::Iri2(_)) && !matches!(o, LT::Bn(_) | LT::EscLit(_))),
         _ => true,
     }
 }
@@ -137,7 +145,8 @@ impl Prop for C13 {
         let n = match size_class { 0 => *r.pick(&[999usize, 1000, 1001, 1999, 2000, 2001, 2500]), 1 => 990 + r.usize(30), 2 if cfg.chance(1, 2) => *r.pick(&[8191usize, 8192, 8193, 16384, 16385]), _ => 1 + r.usize(60) };
         let big = n > 200;
         let vocab = if big { (n as u64) * 2 } else { 12 };
-        let term = |r: &mut Rng, obj: bool| -> LT { match r.below(10) { 0 | 1 if obj => LT::Lit(r.below(vocab) as u32), 2 if obj => LT::EscLit(r.below(5) as u32), 3 => LT::Bn(r.below(6) as u32), _ => LT::Iri(r.below(vocab) as u32) } };
+        let second_ns = cfg.chance(1, 5);
+        let term = |r: &mut Rng, obj: bool| -> LT { if second_ns && r.chance(1, 4) { return LT::Iri2(r.below(vocab.min(12)) as u32); } match r.below(10) { 0 | 1 if obj => LT::Lit(r.below(vocab) as u32), 2 if obj => LT::EscLit(r.below(5) as u32), 3 => LT::Bn(r.below(6) as u32), _ => LT::Iri(r.below(vocab) as u32) } };
         let triples: Vec<(LT, u32, LT)> = (0..n).map(|_| (term(&mut r, false), r.below(4) as u32, term(&mut r, true))).collect();
         let mut triples = triples; if cfg.chance(1, 3) { triples.sort_by(|a, b| a.0.cmp(&b.0)); }
         let prior_kind = cfg.below(3);
@@ -169,7 +178,7 @@ impl Prop for C13 {
                 (&proj_doc, expected(&proj_doc))
             } else if *fmt == Fmt::RdfXml && !supported(fmt, &c.doc) {
                 // the RDF/XML subset has IRI subjects and IRI / plain-literal objects: project the document onto it
-                proj_doc = Doc { triples: c.doc.triples.iter().map(|(s, p, o)| (match s { LT::Iri(n) => LT::Iri(*n), LT::Bn(n) | LT::Lit(n) | LT::EscLit(n) => LT::Iri(*n + 80_000) }, *p, match o { LT::Bn(n) => LT::Iri(*n + 80_000), LT::EscLit(n) => LT::Lit(*n + 90_000), x => x.clone() })).collect(), seed: c.doc.seed };
+                proj_doc = Doc { triples: c.doc.triples.iter().map(|(s, p, o)| (match s { LT::Iri(n) => LT::Iri(*n), LT::Iri2(n) => LT::Iri2(*n), LT::Bn(n) | LT::Lit(n) | LT::EscLit(n) => LT::Iri(*n + 80_000) }, *p, match o { LT::Bn(n) => LT::Iri(*n + 80_000), LT::EscLit(n) => LT::Lit(*n + 90_000), x => x.clone() })).collect(), seed: c.doc.seed };
                 (&proj_doc, expected(&proj_doc))
             } else { (&c.doc, want_doc.clone()) };
             let want_doc = if *fmt == Fmt::NQuads && c.nq_graphs { expected_nq(doc, true) } else { want_doc };
@@ -213,7 +222,7 @@ impl Prop for C13 {
         if c.pool != 1 { out.push(LoadCase { pool: 1, rayon_seed: 0, ..c.clone() }); }
         if c.cpus != 1 { out.push(LoadCase { cpus: 1, ..c.clone() }); }
         // simplify terms
-        if c.doc.triples.iter().any(|(s, _, o)| !matches!(s, LT::Iri(_)) || !matches!(o, LT::Iri(_))) { let t = c.doc.triples.iter().map(|(s, p, o)| (match s { LT::Iri(n) => LT::Iri(*n), LT::Bn(n) | LT::Lit(n) | LT::EscLit(n) => LT::Iri(*n + 500) }, *p, match o { LT::Iri(n) => LT::Iri(*n), LT::Bn(n) | LT::Lit(n) | LT::EscLit(n) => LT::Iri(*n + 500) })).collect(); out.push(LoadCase { doc: Doc { triples: t, seed: c.doc.seed }, ..c.clone() }); }
+        if c.doc.triples.iter().any(|(s, _, o)| !matches!(s, LT::Iri(_)) || !matches!(o, LT::Iri(_))) { let t = c.doc.triples.iter().map(|(s, p, o)| (match s { LT::Iri(n) | LT::Iri2(n) => LT::Iri(*n), LT::Bn(n) | LT::Lit(n) | LT::EscLit(n) => LT::Iri(*n + 500) }, *p, match o { LT::Iri(n) | LT::Iri2(n) => LT::Iri(*n), LT::Bn(n) | LT::Lit(n) | LT::EscLit(n) => LT::Iri(*n + 500) })).collect(); out.push(LoadCase { doc: Doc { triples: t, seed: c.doc.seed }, ..c.clone() }); }
         if c.doc.triples.iter().any(|(_, _, o)| matches!(o, LT::EscLit(_))) { let t = c.doc.triples.iter().map(|(s, p, o)| (s.clone(), *p, match o { LT::EscLit(n) => LT::Lit(*n), x => x.clone() })).collect(); out.push(LoadCase { doc: Doc { triples: t, seed: c.doc.seed }, ..c.clone() }); }
         out
     }
